@@ -192,7 +192,7 @@ MORE = {
  "C15": " Expiry spelled as expires_at / expires_in (past, inside the 5 s margin, far future, in-wins-over-at), Retry-After as seconds / HTTP-date / garbage, 1-8 workers. Per-object deferrals with different Retry-After values and a directed several-objects-waiting family: the first request naming a deferred object must not start before its ready time. With the real adapter: actions that run out while objects wait for the only worker (the scripted server reports a request that arrives after the advertised expiry).",
  "C17": " Approve and reject exchanges (credentials as an older Git hands them back, CR / NUL included) and URLs with control bytes in the path under credential.usehttppath are part of the sequences (found and now guards the repaired defect D39). A context machine (ctxRun) covers SEQUENCES of URLs on one credential-helper context: protection follows the current URL's setting (protection_follows_current_url), compared end to end through a fake `git` that records the stdin it is given.",
  "C18": " The fake server spells offered action header names in four ways and may offer Authorization/Content-Type; each offered header must arrive exactly once with the offered value. Servers may change the transfer adapter between the batch answers of one push (tus / omitted / basic): every storage request is judged against the transfer its own answer named, and the answer history goes to the model ApiReq.adapterAfter (adapter_follows_latest_answer, omitted_transfer_means_basic). The unlock URL is modelled (UrlEsc: net/url PathEscape with round-trip, one-segment and injectivity theorems, the per-byte facts decided over all 256 values) and compared with the request the real client sends for lock ids containing URL delimiters; such ids are also among the response corruptions (D53).",
- "C19": " Sequences of 2-5 track/untrack/--lockable/--not-lockable operations over related patterns (rooted/unrooted, globs, directories) are judged after every step against hand-quoted reference patterns by `git check-attr`. Pre-existing files may define lfs macros in nested directories (fact attrFileMacroConditions + obligation), mention the argument without tracking it (lockable alone, -filter, filter=other: D54), track `sub/<pattern>` from above (D58), track through a top-level macro (D55, known), or hold a line longer than 64 KiB (D56); a lockable pattern is tracked again without a lock flag (D50). Sequences are also compared line by line with the model TrkSeq (track/untrack as operations on the lines of .gitattributes: idempotence, lockable kept without a flag, other patterns untouched).",
+ "C19": " Sequences of 2-5 track/untrack/--lockable/--not-lockable operations over related patterns (rooted/unrooted, globs, directories) are judged after every step against hand-quoted reference patterns by `git check-attr`. Pre-existing files may define lfs macros in nested directories (fact attrFileMacroConditions + obligation), mention the argument without tracking it (lockable alone, -filter, filter=other: D54), track `sub/<pattern>` from above (D58), track through a top-level macro (D55, repaired), or hold a line longer than 64 KiB (D56); a lockable pattern is tracked again without a lock flag (D50). Sequences are also compared line by line with the model TrkSeq (track/untrack as operations on the lines of .gitattributes: idempotence, lockable kept without a flag, other patterns untouched).",
  "C20": " core.hooksPath (relative and absolute, decoy hooks left in .git/hooks), commands run from a sub-directory, --skip-repo and --skip-smudge are generated. Hook states include symlinks to user scripts; both configuration scopes are planted and the untargeted scope must never be written. The implicit hook installation of other commands is covered: track / untrack / fsck inside the sequences, and a `git lfs clone` campaign with user hooks planted through init.templateDir or a global core.hooksPath, judged directly and against Hk.installAll; the regenerated list of installHooks call sites is proved to force only in `git lfs update`.",
 }
 for k, v in MORE.items():
